@@ -762,7 +762,9 @@ class Peer:
                     await asyncio.sleep(0)
 
                 # Keepalive handling
-                self.recv_timer.check_ka(message)
+                # the hold timer only: check_ka() also ended the session with an OPEN error (2/6) on the second
+                # KEEPALIVE received with a zero hold time, which RFC 4271 does not make an error of the receiver
+                self.recv_timer.check_ka_timer(message)
                 await send_ka.send_if_needed()
 
                 # Log statistics changes
